@@ -15,7 +15,7 @@ func init() { reg("C06", C06) }
 // run a history on a fresh emitter with a roomy buffer, checking each call against the shadow.
 // Returns the emitter, the shadow and false if a per-call expectation failed.
 func runHistory(r *vf.Run, calls []hcall, listing bool, capacity int, tag string) (*asm.Emitter, *shadow, []byte, bool) {
-	buf := make([]byte, capacity)
+	buf := make([]byte, capacity, capacity+(capacity%3)*8) // (two thirds of the targets have spare capacity behind their length)
 	for i := range buf {
 		buf[i] = 0xCC
 	}
